@@ -172,7 +172,7 @@ def _iso8583_to_dict(message, bit_config, encoding=DEFAULT_ENCODING, hex_bitmap=
             message_length = len(message)-20
             message_type_indicator, binary_bitmap, message_data = struct.unpack(
                 "4s16s" + str(message_length) + "s", message)
-    except struct.error as ex:
+    except (struct.error, binascii.Error) as ex:
         raise Iso8583DataError('Failed unpacking bitmap values', binary_context_data=message, original_exception=ex)
     return_values = dict()
 
